@@ -126,8 +126,10 @@ impl ReadHalf for R {
                         }
                         // the ways a transport reports a failed read: the library's own variant, or the I/O error
                         // of the operating system (a reset connection, a broken pipe), alternating by connection
+                        // (the kind stays the same for a connection once its reads fail: a transport that keeps
+                        // reporting `Interrupted` is one of them)
                         w.read_errs += 1;
-                        Poll::Ready(Err(match (tag as usize + w.read_errs) % 5 {
+                        Poll::Ready(Err(match (tag as usize + w.delivered) % 5 {
                             0 => zlink_core::Error::SocketRead,
                             1 => zlink_core::Error::Io(std::io::Error::from(std::io::ErrorKind::ConnectionReset)),
                             2 => zlink_core::Error::Io(std::io::Error::from(std::io::ErrorKind::Interrupted)),
